@@ -20,7 +20,7 @@ ASSUMPTIONS = ASSUME[:1] + ["R in the covariance identities: exact rational inve
 
 def tasks(tier):
     M = "contracts.misc"
-    t = [(M, "qr_norm", dict(uhf=False)), (M, "qr_norm", dict(uhf=True)), (M, "init_walkers_openshell", {}), (M, "init_walkers_paths", {})]
+    t = [(M, "qr_norm", dict(uhf=False)), (M, "qr_norm", dict(uhf=True)), (M, "init_walkers_openshell", {}), (M, "init_walkers_paths", {}), (M, "init_walkers_natorbs", {}), (M, "init_walkers_natorbs", dict(norb=3, nu=2, nd=1))]
     if tier == "thorough":
         t.append((M, "init_walkers_openshell", dict(norb=5, nu=3, nd=2)))
         t.append((M, "init_walkers_openshell", dict(norb=4, nu=3, nd=1)))
